@@ -2,12 +2,12 @@ package harness
 
 import (
 	"encoding/json"
-	"runtime"
 	"fmt"
 	"hash/fnv"
 	"math/rand"
 	"os"
 	"path/filepath"
+	"runtime"
 	"runtime/debug"
 	"sort"
 	"strconv"
@@ -41,17 +41,17 @@ type Case struct {
 
 // Result of executing one case.
 type Result struct {
-	Viol      []Violation
-	Hash      uint64
-	Steps     uint64
-	SimTime   time.Duration
-	EndCause  string
-	Multi     uint64
-	MaxReady  int
-	Probes    map[string]int64
-	Faults    map[string]int64
-	Leftover  int
-	Infra     string // non-empty: infrastructure problem (not a verdict)
+	Viol     []Violation
+	Hash     uint64
+	Steps    uint64
+	SimTime  time.Duration
+	EndCause string
+	Multi    uint64
+	MaxReady int
+	Probes   map[string]int64
+	Faults   map[string]int64
+	Leftover int
+	Infra    string // non-empty: infrastructure problem (not a verdict)
 }
 
 // Scenario is the workload + oracle of one property.
@@ -106,6 +106,23 @@ func Execute(t *testing.T, c *Case) (res Result) {
 		res.Infra = "unknown property " + c.Prop
 		return
 	}
+	var w *World
+	defer func() {
+		// checks deferred to real time; a recovered end-of-bubble panic (leftover threads) still gets here
+		if w == nil || res.Infra != "" {
+			return
+		}
+		defer func() {
+			if r := recover(); r != nil {
+				res.Infra = "after-bubble check panic: " + fmt.Sprint(r) + "\n" + string(debug.Stack())
+			}
+		}()
+		for _, f := range w.AfterBubble {
+			f()
+		}
+		res.Viol = w.Violations()
+		res.Probes = w.Probes
+	}()
 	defer func() {
 		if r := recover(); r != nil {
 			msg := fmt.Sprint(r)
@@ -118,7 +135,7 @@ func Execute(t *testing.T, c *Case) (res Result) {
 		}
 	}()
 	synctest.Test(t, func(t *testing.T) {
-		w := NewWorld(c)
+		w = NewWorld(c)
 		func() {
 			defer func() {
 				if r := recover(); r != nil {
@@ -224,39 +241,39 @@ func Minimise(t *testing.T, c *Case, sig string, budget time.Duration) (*Case, i
 
 // WorkerOut is what one worker process reports.
 type WorkerOut struct {
-	Prop       string           `json:"prop"`
-	Tier       string           `json:"tier"`
-	Seed       int64            `json:"seed"`
-	Worker     int              `json:"worker"`
-	Runs       int              `json:"runs"`
-	Nontrivial int              `json:"nontrivial"`
-	Hashes     []string         `json:"hashes"`
-	Violations []FoundViolation `json:"violations"`
-	Probes     map[string]int64 `json:"probes"`
-	Faults     map[string]int64 `json:"faults"`
-	SimTimeS   float64          `json:"sim_time_s"`
-	Steps      uint64           `json:"steps"`
-	MultiSteps uint64           `json:"multi_steps"`
-	EndCauses  map[string]int   `json:"end_causes"`
+	Prop       string            `json:"prop"`
+	Tier       string            `json:"tier"`
+	Seed       int64             `json:"seed"`
+	Worker     int               `json:"worker"`
+	Runs       int               `json:"runs"`
+	Nontrivial int               `json:"nontrivial"`
+	Hashes     []string          `json:"hashes"`
+	Violations []FoundViolation  `json:"violations"`
+	Probes     map[string]int64  `json:"probes"`
+	Faults     map[string]int64  `json:"faults"`
+	SimTimeS   float64           `json:"sim_time_s"`
+	Steps      uint64            `json:"steps"`
+	MultiSteps uint64            `json:"multi_steps"`
+	EndCauses  map[string]int    `json:"end_causes"`
 	Samples    []json.RawMessage `json:"samples"`
-	Infra      []string         `json:"infra"`
-	WallS      float64          `json:"wall_s"`
-	Leftover   int              `json:"leftover_threads"`
-	Exhaustive bool             `json:"exhaustive"`
+	Infra      []string          `json:"infra"`
+	WallS      float64           `json:"wall_s"`
+	Leftover   int               `json:"leftover_threads"`
+	Exhaustive bool              `json:"exhaustive"`
 }
 
 type FoundViolation struct {
-	Prop   string `json:"prop"`
-	Sig    string `json:"sig"`
-	Msg    string `json:"msg"`
-	Seed   int64  `json:"seed"`
-	Idx    int    `json:"idx"`
-	Replay string `json:"replay"`
-	Tries  int    `json:"minimise_tries"`
-	OpsBefore int `json:"ops_before"`
-	OpsAfter  int `json:"ops_after"`
-	MaskApplied      bool `json:"mask_applied"`       // the failing run already ran under the property's mask
-	MaskedStillFails bool `json:"masked_still_fails"` // the minimised case also fails with the mask switched on
+	Prop             string `json:"prop"`
+	Sig              string `json:"sig"`
+	Msg              string `json:"msg"`
+	Seed             int64  `json:"seed"`
+	Idx              int    `json:"idx"`
+	Replay           string `json:"replay"`
+	Tries            int    `json:"minimise_tries"`
+	OpsBefore        int    `json:"ops_before"`
+	OpsAfter         int    `json:"ops_after"`
+	MaskApplied      bool   `json:"mask_applied"`       // the failing run already ran under the property's mask
+	MaskedStillFails bool   `json:"masked_still_fails"` // the minimised case also fails with the mask switched on
 }
 
 func envInt(k string, def int) int {
@@ -447,13 +464,13 @@ func replay(t *testing.T, path, out string) {
 	}
 	r := Execute(t, &c)
 	type rep struct {
-		MaskApplied      bool  `json:"mask_applied"`
-		MaskedStillFails bool  `json:"masked_still_fails"`
-		Reproduced bool        `json:"reproduced"`
-		HashMatch  bool        `json:"hash_match"`
-		Hash       string      `json:"hash"`
-		Viol       []Violation `json:"violations"`
-		Infra      string      `json:"infra"`
+		MaskApplied      bool        `json:"mask_applied"`
+		MaskedStillFails bool        `json:"masked_still_fails"`
+		Reproduced       bool        `json:"reproduced"`
+		HashMatch        bool        `json:"hash_match"`
+		Hash             string      `json:"hash"`
+		Viol             []Violation `json:"violations"`
+		Infra            string      `json:"infra"`
 	}
 	o := rep{Viol: r.Viol, Infra: r.Infra, Hash: strconv.FormatUint(r.Hash, 16)}
 	o.Reproduced = c.ExpectSig == "" && len(r.Viol) > 0 || hasSig(r.Viol, c.ExpectSig)
